@@ -51,9 +51,14 @@ def scenario(n, path, rstack, drops, again):
                                   lambda: (w.ncp.out.append(__import__("harness.ashlib", fromlist=["x"]).spec_wire("K", code=0x02)), w.pump()))
             elif rstack == "late":
                 w.loop.call_later(1.5, lambda: (w.ncp.out.append(__import__("harness.ashlib", fromlist=["x"]).spec_wire("K", code=0x0B)), w.pump()))
-            if again == "retry":
+            if again in ("retry", "linkfail"):
                 # the acknowledgement of the very first reset is lost: that bring-up fails; the caller tries again on the same object
-                w.ncp.drop_next_tx = 1
+                # ("linkfail": the handshake works, then the line swallows every transmission of the first query - the host itself
+                # gives the link up after its last retransmission; the next bring-up starts with a reset handshake like any other)
+                if again == "retry":
+                    w.ncp.drop_next_tx = 1
+                else:
+                    w.ncp.drop_rx_after_reset = 5   # exactly the five transmissions ASH makes
                 try:
                     await w.ezsp.startup_reset()
                     out["first_try"] = "completed"
@@ -61,13 +66,17 @@ def scenario(n, path, rstack, drops, again):
                     out["first_try"] = type(e).__name__
                 out["w_retry"] = len([1 for d, b in w.wire_log if d == "h2n"])
                 out["n_retry"] = len(w.ncp.rx_frames)
+                if again == "linkfail":
+                    # (EZSP is still marked running - nobody was attached to be told of the failure -, so the caller asks for the
+                    # reset explicitly, as the application's recovery does)
+                    await w.ezsp.reset()
             await w.ezsp.startup_reset()
             out["ev1"] = w.ezsp.ezsp_version
             out["hv1"] = w.ezsp._protocol.VERSION
             out["n1"] = len(w.ncp.rx_frames)
             await w.ezsp.write_config({})
             out["cfg"] = True
-            if again == "retry":
+            if again in ("retry", "linkfail"):
                 await w.ezsp.getEui64()
                 return True
             if isinstance(again, str) and again.startswith("crossing"):
@@ -150,7 +159,10 @@ def native_query(n, seq):
 
 def oracle(n, path, rstack, drops, again, o):
     faults = drops != (0, 0)
-    if again == "retry" and o["result"] == "ok":
+    if again == "linkfail" and o["result"] != "ok":
+        return (f"after a bring-up that failed because the link gave up ({o.get('first_try')}), a new bring-up on the same object - reset handshake included - "
+                f"did not complete: {o['result']}")
+    if again in ("retry", "linkfail") and o["result"] == "ok":
         if o.get("first_try") == "completed":
             return None if o["ev1"] == n else f"negotiated protocol version {o['ev1']}, the NCP reports {n}"
         if RST not in b"".join(o["wire_h2n"][o["w_retry"]:o["w_retry"] + 2]):
@@ -230,6 +242,7 @@ def cases(ctx):
         if n in (4, 6, 8, 13, 14, 15) or ctx.tier == "thorough":
             cs.append((n, "/dev/ttyUSB0", None, (0, 0), "retry"))
             cs.append((n, "/dev/ttyUSB0", None, (0, 0), "lost-retry"))
+            cs.append((n, "/dev/ttyUSB0", None, (0, 0), "linkfail"))
         if n in (4, 8, 14) or ctx.tier == "thorough":
             for k in range(8):
                 cs.append((n, "/dev/ttyUSB0", None, (0, 0), f"crossing{k}"))
@@ -257,9 +270,9 @@ def run(ctx):
         if bad:
             ctx.violation(bad, {"kind": "config-missing" if "KeyError" in bad else "bringup", "version_gt_14": n > 14},
                           {"n": n, "path": path, "rstack": rstack, "drops": list(drops), "again": again})
-        if again in ("retry", "lost-retry") or (isinstance(again, str) and again.startswith("crossing")):
+        if again in ("retry", "lost-retry", "linkfail") or (isinstance(again, str) and again.startswith("crossing")):
             ctx.count("history:" + again.rstrip("0123456789"))
-            if again == "retry":
+            if again in ("retry", "linkfail"):
                 continue
         if model is not None and o["result"] == "ok" and drops == (0, 0):
             m = model1[i].split()
